@@ -104,6 +104,22 @@ def tables(ctx, drv):
         if impl != model:
             ctx.disagree('profile_fn.loader_options', {'profile': pn}, impl, model)
             ok = False
+        # ... and only the defaults: whatever the caller set explicitly - a watermark of 0 ("compress everything") and
+        # sort=False included - stays (every combination)
+        for hs, so, wm, fm in itertools.product([None, ['SHA1']], [None, True, False], [None, 0, 1, 128, 4096], [None, 'xz']):
+            lo = L()
+            lo.hashes, lo.sort, lo.compress_watermark, lo.compress_format = hs, so, wm, fm
+            P.set_loader_options(lo)
+            got = [lo.hashes, lo.sort, lo.compress_watermark, lo.compress_format]
+            ctx.evaluations += 1
+            for given, have, dflt, what in zip([hs, so, wm, fm], got, model, ['hashes', 'sort', 'compress_watermark', 'compress_format']):
+                want = given if given is not None else (dflt if not isinstance(dflt, list) or what != 'hashes' else [uncps(h) for h in dflt])
+                if what == 'compress_format' and given is None and dflt is not None:
+                    want = uncps(dflt)
+                if have != want:
+                    ctx.fail('explicit-loader-option-overridden', {'op': 'set_loader_options', 'profile': pn, 'given': [hs, so, wm, fm]},
+                             f'{what}: given {given!r}, default {dflt!r}, loader ends with {have!r}')
+                    ok = False
     ctx.tables['policy functions of the three profiles on all directory shapes to depth 3 over a 15-name alphabet'] = {
         'size': ctx.evaluations, 'exhaustive': True, 'ok': ok}
 
